@@ -402,6 +402,18 @@ func RunC12(c *Ctx) {
 		}
 		one(s)
 	}
+	// the literal matrix (every prefix x quote form x escape / backslash run / quote run, complete and truncated), alone
+	// and between two separators: where a literal ends decides where the statement ends
+	{
+		k := 0
+		gen.LiteralMatrix(func(s string) {
+			if c.Mine(k) {
+				one(s)
+				one("a;" + s + ";b")
+			}
+			k++
+		})
+	}
 	// every Unicode whitespace character (and its neighbours, which are not whitespace) around a top-level ';'
 	if c.Shard == 0 {
 		for _, cp := range []rune{0x85, 0xA0, 0xA1, 0x1680, 0x1681, 0x180E, 0x1FFF, 0x2000, 0x2001, 0x2002, 0x2003, 0x2004, 0x2005, 0x2006, 0x2007, 0x2008, 0x2009, 0x200A, 0x200B, 0x2027, 0x2028, 0x2029, 0x202A, 0x202F, 0x2030, 0x205E, 0x205F, 0x2060, 0x2FFF, 0x3000, 0x3001, 0xFEFF} {
@@ -573,4 +585,5 @@ func RunC11(c *Ctx) {
 	}
 	_ = rand.IntN
 	c11LongLists(c, idx)
+	c11SemicolonEverywhere(c, 0)
 }
